@@ -37,8 +37,15 @@ def _F(v):
 
 
 # ------------------------------------------------------------------ structure
+def desugar(e):
+    """['nsmin', k, a, b] = k * sum(min(a, b)) with k < 0 and a, b affine: the convex function |k| * sum(max(-a, -b))."""
+    return ['*', -e[1], ['sum', ['max', ['neg', e[2]], ['neg', e[3]]]]]
+
+
 def length(e):
     t = e[0]
+    if t == 'nsmin':
+        return 1
     if t == 'v':
         return len(COLS[e[1]])
     if t in ('i', 'c', 'dot', 'sum', 'vmax'):
@@ -65,6 +72,8 @@ def occurs(e):
         return {e[1]}
     if t in ('c', 'cm'):
         return set()
+    if t == 'nsmin':
+        return occurs(e[2]) | occurs(e[3])
     if t == '*':
         return set() if e[1] == 0 else occurs(e[2])
     if t in ('m*', 'sm*', 'dot'):
@@ -79,7 +88,7 @@ def is_affine(e):
     t = e[0]
     if t in ('v', 'i', 'c', 'cm'):
         return True
-    if t in ('max', 'vmax', 'abs'):
+    if t in ('max', 'vmax', 'abs', 'nsmin'):
         return False
     if t in ('*', 'm*', 'sm*', 'dot'):
         return is_affine(e[2])
@@ -118,6 +127,8 @@ def ev(e, pt, homog=False):
     """exact value (list of Fractions) of e at the point pt = [x, y0, y1, z].
     homog=True evaluates the recession function (all constants replaced by 0)."""
     t = e[0]
+    if t == 'nsmin':
+        return ev(desugar(e), pt, homog)
     if t == 'v':
         return [_F(pt[j]) for j in COLS[e[1]]]
     if t == 'i':
@@ -195,6 +206,8 @@ def lin(e, ctx):
     """rows (affine in the original and the epigraph variables) whose value, minimised over the epigraph
     variables subject to ctx.cons, equals e.  Only valid where e enters with a nonnegative weight."""
     t = e[0]
+    if t == 'nsmin':
+        return lin(desugar(e), ctx)
     if t == 'v':
         return [{j: Fr(1)} for j in COLS[e[1]]]
     if t == 'i':
